@@ -1493,9 +1493,20 @@ func registerBytealg(p *Program) {
 	p.reg("internal/bytealg.IndexByte", func(e *Exec, g *G, a []Value) Value {
 		return indexByte(e, e.sliceTerms(a[0].(SliceV)), a[1].(*Term))
 	})
-	p.reg("internal/bytealg.IndexByteString", func(e *Exec, g *G, a []Value) Value {
-		return indexByte(e, e.strBytes(a[0].(*StrV)), a[1].(*Term))
-	})
+	indexByteStr := func(e *Exec, g *G, a []Value) Value {
+		s := a[0].(*StrV)
+		c := a[1].(*Term)
+		if s.Kind == SIPText && c.IsConst() && c.Val == '%' {
+			// the text of an IP address contains '%' exactly in front of its zone
+			if s.Zone == "" {
+				return e.tc.Const(64, ^uint64(0))
+			}
+			return e.ipTextLen(s.IP)
+		}
+		return indexByte(e, e.strBytes(s), c)
+	}
+	p.reg("internal/bytealg.IndexByteString", indexByteStr)
+	p.reg("strings.IndexByte", indexByteStr)
 	p.reg("internal/bytealg.Equal", func(e *Exec, g *G, a []Value) Value {
 		x, y := e.sliceTerms(a[0].(SliceV)), e.sliceTerms(a[1].(SliceV))
 		if len(x) != len(y) {
